@@ -40,9 +40,10 @@ type (
 	}
 	EOld   struct{ X Expr }
 	EQuant struct {
-		Forall bool
-		Vars   []QVar
-		Body   Expr
+		Forall   bool
+		Vars     []QVar
+		Body     Expr
+		Triggers []Expr
 	}
 )
 
@@ -108,7 +109,7 @@ func lex(src string) ([]tok, error) {
 			ts = append(ts, tok{"str", s})
 			i = j + 1
 		default:
-			ops := []string{"<==>", "==>", "::", "..", "==", "!=", "<=", ">=", "&&", "||", "+", "-", "*", "/", "%", "<", ">", "!", "(", ")", "[", "]", ".", ",", ":", "?"}
+			ops := []string{"<==>", "==>", "::", "..", "==", "!=", "<=", ">=", "&&", "||", "+", "-", "*", "/", "%", "<", ">", "!", "(", ")", "[", "]", "{", "}", ".", ",", ":", "?"}
 			found := false
 			for _, op := range ops {
 				if strings.HasPrefix(src[i:], op) {
@@ -357,6 +358,16 @@ func (p *parser) quant(forall bool) Expr {
 		}
 	}
 	p.expect("::")
+	if p.isOp("{") {
+		p.next()
+		for !p.isOp("}") {
+			q.Triggers = append(q.Triggers, p.expr())
+			if p.isOp(",") {
+				p.next()
+			}
+		}
+		p.expect("}")
+	}
 	q.Body = p.expr()
 	return q
 }
@@ -408,6 +419,7 @@ type FuncContract struct {
 	Trusted  bool // contract assumed, body not verified
 	Pure     bool // result is a function of arguments (and read heap)
 	Safe     bool // prove absence of run-time panics too
+	Uses     []string // named axiom groups this function's proof may use
 	Reveals  []string // opaque predicates whose definition this function's proof may use
 	NoFrame  bool // no frame promise: callers havoc everything; no frame obligations
 	Decreases *Clause
@@ -435,7 +447,7 @@ func NewContractSet() *ContractSet {
 }
 
 var clauseKeywords = map[string]bool{"pred": true, "func": true, "requires": true, "ensures": true, "loop": true,
-	"modifies": true, "ufunc": true, "axiom": true, "noframe": true, "opaque": true, "reveal": true, "trusted": true, "pure": true, "safe": true, "decreases": true, "let": true, "ghost": true, "init": true, "package": true}
+	"modifies": true, "ufunc": true, "axiom": true, "noframe": true, "opaque": true, "reveal": true, "uses": true, "trusted": true, "pure": true, "safe": true, "decreases": true, "let": true, "ghost": true, "init": true, "package": true}
 
 // ParseContractFile reads the //@ lines of one file.
 func (cs *ContractSet) ParseContractFile(path, pkgPath string) error {
@@ -592,6 +604,8 @@ func (cs *ContractSet) ParseContractFile(path, pkgPath string) error {
 				cur.Trusted = true
 			case "noframe":
 				cur.NoFrame = true
+			case "uses":
+				cur.Uses = append(cur.Uses, strings.Fields(rest)...)
 			case "reveal":
 				cur.Reveals = append(cur.Reveals, strings.Fields(rest)...)
 			case "pure":
